@@ -27,6 +27,11 @@ Clauses(ev, s) ==
             <<"C09.first-match", TRUE, FirstMatch(ev.s, ev.detected, [types |-> ev.types], AccT)>>,
             <<"C09.only-if-accepts", ev.detected # "", OnlyIfAccepts(ev.s, ev.detected, AccT)>>,
             <<"C09.disabled", ev.detected # "", NeverDisabled(ev.detected, [types |-> ev.types])>> >>
+    \* strings inside one list: each item is classified on its own, in registration order (neighbours do not matter)
+    [] ev.ev = "DetectList" ->
+         << <<"C09.detect-total", TRUE, ev.exc = "">>,
+            <<"C09.first-match.list", ev.exc = "",
+              ev.exc # "" \/ ToSet(ev.members) = {FirstMatchName(ev.items[i], [types |-> ev.types], AccT) : i \in DOMAIN ev.items} \ {""}>> >>
     [] ev.ev = "Resolve" ->
          << <<"C09.resolve-total", TRUE, ev.exc = "">>,
             <<"C09.resolve-covers", ev.exc = "" /\ Len(ev.R) = 1,
